@@ -570,484 +570,493 @@ def run(repo, chk):
     chk.floor("R-C02-1", 8 * 3)
 
     # ---------------------------------------------------------------- per path formulas of the open cases
-    def formulas(bname):
-        fn, runs = per[bname]
-        dictname = bname.replace("_constraint", "")
-        out = []
-        for case, paths, ex in runs:
-            if case.closed:
-                continue
-            for p in paths:
-                st = p.stores("m.%s[" % dictname)
-                if not st:
+    with chk.part("per path formulas of the open cases"):
+        def formulas(bname):
+            fn, runs = per[bname]
+            dictname = bname.replace("_constraint", "")
+            out = []
+            for case, paths, ex in runs:
+                if case.closed:
                     continue
-                brs = branches_of(st[-1][1])
-                if brs is None:
-                    raise ExtractError("%s: stored value is not a Constraint on path %s" % (bname, p.label))
-                out.append((case, p, brs, ex))
-        return fn, out
-
-    n_orient = 0
-    for bname in LINK_BUILDERS:
-        fn, fl = formulas(bname)
-        for case, p, brs, ex in fl:
-            sj, ej = case.sj, case.ej
-            for i, (g, e) in enumerate(brs):
-                Rraw = S(ex, e)
-                R, info = canon(Rraw)
-                tag = "%s [%s] branch %d" % (bname, case.nodes, i)
-                stat = (case.status if bname in VALVE_BUILDERS else "") + path_tag(p)
-                tag += (" " + stat.strip()) if stat else ""
-                # binding of start_h / end_h: junction -> m.head[start_node_name], otherwise m.source_head[...]
-                for role, isj in (("Hs", sj), ("He", ej)):
-                    for nm, i_ in info.get(role, []):
-                        want = "head" if isj else "source_head"
-                        chk.expect(i_.get("dict") == want, "R-C02-2", "%s: %s is read from m.%s" % (tag, role, want), loc(fn),
-                                   "a junction's head is the variable m.head, a tank/reservoir's the parameter m.source_head", expected=want, found=nm)
-                is_setting = (bname in ("prv_headloss_constraint", "psv_headloss_constraint", "fcv_headloss_constraint") and case.status == "Active")
-                if not is_setting:
-                    negq = isinstance(g, Ineq) and canon(g.body)[0] == Q and g.lb is None and g.ub is not None and S(ex, g.ub) == 0
-                    if bname == "head_pump_headloss_constraint" and len(brs) == 3 and i == 1:
-                        chk.note("head pump smoothing cubic on (pump_q1, pump_q2]: monotonicity depends on the fitted A,B,C and is checked at run time by get_pump_poly_coefficients (warning); not decided statically")
+                for p in paths:
+                    st = p.stores("m.%s[" % dictname)
+                    if not st:
                         continue
-                    interval = None
-                    numsub = None
-                    if bname == "piecewise_hazen_williams_headloss_constraint" and i == 1:
-                        numsub = dict(csub)
-                        numsub[cs("hw_minor_exp")] = 2
-                        interval = (consts["hw_q1"][0], consts["hw_q2"][0])
-                    if check_orientation(chk, "R-C02-2", "%s: orientation start->end" % tag, loc(fn), R, negative_flow=negq, numsub=numsub, interval=interval):
-                        n_orient += 1
-    chk.floor("R-C02-2", 60)
+                    brs = branches_of(st[-1][1])
+                    if brs is None:
+                        raise ExtractError("%s: stored value is not a Constraint on path %s" % (bname, p.label))
+                    out.append((case, p, brs, ex))
+            return fn, out
+
+        n_orient = 0
+        for bname in LINK_BUILDERS:
+            fn, fl = formulas(bname)
+            for case, p, brs, ex in fl:
+                sj, ej = case.sj, case.ej
+                for i, (g, e) in enumerate(brs):
+                    Rraw = S(ex, e)
+                    R, info = canon(Rraw)
+                    tag = "%s [%s] branch %d" % (bname, case.nodes, i)
+                    stat = (case.status if bname in VALVE_BUILDERS else "") + path_tag(p)
+                    tag += (" " + stat.strip()) if stat else ""
+                    # binding of start_h / end_h: junction -> m.head[start_node_name], otherwise m.source_head[...]
+                    for role, isj in (("Hs", sj), ("He", ej)):
+                        for nm, i_ in info.get(role, []):
+                            want = "head" if isj else "source_head"
+                            chk.expect(i_.get("dict") == want, "R-C02-2", "%s: %s is read from m.%s" % (tag, role, want), loc(fn),
+                                       "a junction's head is the variable m.head, a tank/reservoir's the parameter m.source_head", expected=want, found=nm)
+                    is_setting = (bname in ("prv_headloss_constraint", "psv_headloss_constraint", "fcv_headloss_constraint") and case.status == "Active")
+                    if not is_setting:
+                        negq = isinstance(g, Ineq) and canon(g.body)[0] == Q and g.lb is None and g.ub is not None and S(ex, g.ub) == 0
+                        if bname == "head_pump_headloss_constraint" and len(brs) == 3 and i == 1:
+                            chk.note("head pump smoothing cubic on (pump_q1, pump_q2]: monotonicity depends on the fitted A,B,C and is checked at run time by get_pump_poly_coefficients (warning); not decided statically")
+                            continue
+                        interval = None
+                        numsub = None
+                        if bname == "piecewise_hazen_williams_headloss_constraint" and i == 1:
+                            numsub = dict(csub)
+                            numsub[cs("hw_minor_exp")] = 2
+                            interval = (consts["hw_q1"][0], consts["hw_q2"][0])
+                        if check_orientation(chk, "R-C02-2", "%s: orientation start->end" % tag, loc(fn), R, negative_flow=negq, numsub=numsub, interval=interval):
+                            n_orient += 1
+        chk.floor("R-C02-2", 60)
 
     # ---------------------------------------------------------------- R-C02-3 pipe law
-    k, Km, he, hm = cs("hw_resistance"), cs("minor_loss"), cs("hw_exp"), cs("hw_minor_exp")
-    hw = lambda q: sp.sign(q) * k * sp.Abs(q) ** he
-    ml = lambda q: sp.sign(q) * Km * q ** hm
-    for nm, want, tol in (("hw_exp", sp.Rational("1.852"), 0), ("hw_minor_exp", sp.Integer(2), 0), ("hw_k", sp.Rational("10.667"), sp.Rational("5e-4"))):
-        got = consts.get(nm)
-        okc = got is not None and isinstance(got[0], sp.Basic) and got[0].is_number and abs(got[0] - want) <= tol * want
-        chk.expect(okc, "R-C02-3", "constant %s = %s" % (nm, want), loc(B.CONSTANTS), "Hazen-Williams constant (SI): exponent 1.852, minor-loss exponent 2, k = 10.667",
-                   expected=str(want), found=str(got[0]) if got else None)
-    fn, fl = formulas("approx_hazen_williams_headloss_constraint")
-    for case, p, brs, ex in fl:
-        sj, ej = case.sj, case.ej
-        R, _ = canon(S(ex, brs[0][1]))
-        L = sp.expand((HS - HE) - R)
-        D = sp.simplify((L - hw(Q) - ml(Q)).xreplace({Q: QP}))
-        ratio = sp.simplify(D / (sp.sqrt(k) * QP))
-        good = ratio.is_number and 0 <= ratio <= sp.Rational("1e-4")
-        chk.expect(good, "R-C02-3", "approx H-W row [%s%s]: Hs - He = sign(q) k |q|^1.852 + sign(q) Km q^2 (+ eps sqrt(k) q, 0<=eps<=1e-4)" % ("J" if sj else "S", "J" if ej else "S"),
-                   loc(fn), "open pipe law", expected="(Hs-He) - [HW + minor] = eps*sqrt(k)*q", found="L = %s" % L)
-        Lm = L.subs(hm, 2)
-        chk.expect(is_zero(Lm.subs(Q, -Q) + Lm), "R-C02-3", "approx H-W head loss is an odd function of flow [%s%s]" % ("J" if sj else "S", "J" if ej else "S"), loc(fn),
-                   expected="L(-q) = -L(q)", found=str(Lm))
-        dL = sp.simplify(sp.diff(L.xreplace({Q: QP}), QP))
-        chk.expect(dL.is_positive is True or sign_of(dL) == 1, "R-C02-3", "approx H-W head loss increases with flow [%s%s]" % ("J" if sj else "S", "J" if ej else "S"), loc(fn),
-                   expected="dL/dq > 0 for q > 0", found=str(dL))
-    fn, fl = formulas("piecewise_hazen_williams_headloss_constraint")
-    for case, p, brs, ex in fl:
-        sj, ej = case.sj, case.ej
-        tagp = "piecewise H-W [%s%s]" % ("J" if sj else "S", "J" if ej else "S")
-        if len(brs) != 3:
-            chk.bad("R-C02-3", "%s has three branches" % tagp, loc(fn), found=len(brs))
-            continue
-        Ls = []
-        for i, (g, e) in enumerate(brs):
-            R, _ = canon(S(ex, e))
+    with chk.part("R-C02-3 pipe law"):
+        k, Km, he, hm = cs("hw_resistance"), cs("minor_loss"), cs("hw_exp"), cs("hw_minor_exp")
+        hw = lambda q: sp.sign(q) * k * sp.Abs(q) ** he
+        ml = lambda q: sp.sign(q) * Km * q ** hm
+        for nm, want, tol in (("hw_exp", sp.Rational("1.852"), 0), ("hw_minor_exp", sp.Integer(2), 0), ("hw_k", sp.Rational("10.667"), sp.Rational("5e-4"))):
+            got = consts.get(nm)
+            okc = got is not None and isinstance(got[0], sp.Basic) and got[0].is_number and abs(got[0] - want) <= tol * want
+            chk.expect(okc, "R-C02-3", "constant %s = %s" % (nm, want), loc(B.CONSTANTS), "Hazen-Williams constant (SI): exponent 1.852, minor-loss exponent 2, k = 10.667",
+                       expected=str(want), found=str(got[0]) if got else None)
+        fn, fl = formulas("approx_hazen_williams_headloss_constraint")
+        for case, p, brs, ex in fl:
+            sj, ej = case.sj, case.ej
+            R, _ = canon(S(ex, brs[0][1]))
             L = sp.expand((HS - HE) - R)
-            Ls.append(L)
+            D = sp.simplify((L - hw(Q) - ml(Q)).xreplace({Q: QP}))
+            ratio = sp.simplify(D / (sp.sqrt(k) * QP))
+            good = ratio.is_number and 0 <= ratio <= sp.Rational("1e-4")
+            chk.expect(good, "R-C02-3", "approx H-W row [%s%s]: Hs - He = sign(q) k |q|^1.852 + sign(q) Km q^2 (+ eps sqrt(k) q, 0<=eps<=1e-4)" % ("J" if sj else "S", "J" if ej else "S"),
+                       loc(fn), "open pipe law", expected="(Hs-He) - [HW + minor] = eps*sqrt(k)*q", found="L = %s" % L)
             Lm = L.subs(hm, 2)
-            chk.expect(is_zero(sp.simplify(Lm.subs(Q, -Q) + Lm)), "R-C02-3", "%s branch %d is odd in the flow" % (tagp, i), loc(fn), found=str(Lm))
-        chk.expect(is_zero(Ls[2] - hw(Q) - ml(Q)), "R-C02-3", "%s final branch is H-W + minor loss" % tagp, loc(fn), found=str(Ls[2]))
-        # guards |q| <= hw_q1, |q| <= hw_q2
-        gs = []
-        for g, e in brs[:2]:
-            if not isinstance(g, Ineq):
-                gs.append(None)
+            chk.expect(is_zero(Lm.subs(Q, -Q) + Lm), "R-C02-3", "approx H-W head loss is an odd function of flow [%s%s]" % ("J" if sj else "S", "J" if ej else "S"), loc(fn),
+                       expected="L(-q) = -L(q)", found=str(Lm))
+            dL = sp.simplify(sp.diff(L.xreplace({Q: QP}), QP))
+            chk.expect(dL.is_positive is True or sign_of(dL) == 1, "R-C02-3", "approx H-W head loss increases with flow [%s%s]" % ("J" if sj else "S", "J" if ej else "S"), loc(fn),
+                       expected="dL/dq > 0 for q > 0", found=str(dL))
+        fn, fl = formulas("piecewise_hazen_williams_headloss_constraint")
+        for case, p, brs, ex in fl:
+            sj, ej = case.sj, case.ej
+            tagp = "piecewise H-W [%s%s]" % ("J" if sj else "S", "J" if ej else "S")
+            if len(brs) != 3:
+                chk.bad("R-C02-3", "%s has three branches" % tagp, loc(fn), found=len(brs))
                 continue
-            body, _ = canon(g.body)
-            ub, _ = canon(S(ex, g.ub)) if g.ub is not None else (None, None)
-            gs.append((body, ub, g.lb))
-        chk.expect(gs[0] is not None and gs[0][0] == sp.Abs(Q) and gs[0][1] == cs("hw_q1") and gs[0][2] is None and
-                   gs[1] is not None and gs[1][0] == sp.Abs(Q) and gs[1][1] == cs("hw_q2"), "R-C02-3", "%s guards are |q| <= hw_q1, |q| <= hw_q2" % tagp, loc(fn), found=str(gs))
-        # C0 / C1 agreement at the break points with the constants file (q > 0)
-        num = dict(csub)
-        num[hm] = 2
-        for (i, j, bp) in ((0, 1, "hw_q1"), (1, 2, "hw_q2")):
-            xq = consts[bp][0]
-            for order in (0, 1):
-                fi = sp.diff(Ls[i].xreplace({Q: QP}), QP, order).xreplace(num).subs(QP, xq)
-                fj = sp.diff(Ls[j].xreplace({Q: QP}), QP, order).xreplace(num).subs(QP, xq)
-                d = sp.N(sp.simplify((fi - fj) / k), 40)
-                scale = abs(sp.N((fj / k), 40)) + sp.Float("1e-30")
-                chk.expect(bool(d.is_number and abs(d) <= sp.Float("1e-9") * scale + sp.Float("1e-25")), "R-C02-3",
-                           "%s: branches %d and %d agree at %s (derivative order %d)" % (tagp, i, j, bp, order), loc(fn),
-                           "the smoothing polynomial data in constants.py must be the value/derivative of the neighbouring branches", found="difference/k = %s" % d)
-    chk.floor("R-C02-3", 3 + 4 * 3 + 4 * (3 + 1 + 1 + 4))
+            Ls = []
+            for i, (g, e) in enumerate(brs):
+                R, _ = canon(S(ex, e))
+                L = sp.expand((HS - HE) - R)
+                Ls.append(L)
+                Lm = L.subs(hm, 2)
+                chk.expect(is_zero(sp.simplify(Lm.subs(Q, -Q) + Lm)), "R-C02-3", "%s branch %d is odd in the flow" % (tagp, i), loc(fn), found=str(Lm))
+            chk.expect(is_zero(Ls[2] - hw(Q) - ml(Q)), "R-C02-3", "%s final branch is H-W + minor loss" % tagp, loc(fn), found=str(Ls[2]))
+            # guards |q| <= hw_q1, |q| <= hw_q2
+            gs = []
+            for g, e in brs[:2]:
+                if not isinstance(g, Ineq):
+                    gs.append(None)
+                    continue
+                body, _ = canon(g.body)
+                ub, _ = canon(S(ex, g.ub)) if g.ub is not None else (None, None)
+                gs.append((body, ub, g.lb))
+            chk.expect(gs[0] is not None and gs[0][0] == sp.Abs(Q) and gs[0][1] == cs("hw_q1") and gs[0][2] is None and
+                       gs[1] is not None and gs[1][0] == sp.Abs(Q) and gs[1][1] == cs("hw_q2"), "R-C02-3", "%s guards are |q| <= hw_q1, |q| <= hw_q2" % tagp, loc(fn), found=str(gs))
+            # C0 / C1 agreement at the break points with the constants file (q > 0)
+            num = dict(csub)
+            num[hm] = 2
+            for (i, j, bp) in ((0, 1, "hw_q1"), (1, 2, "hw_q2")):
+                xq = consts[bp][0]
+                for order in (0, 1):
+                    fi = sp.diff(Ls[i].xreplace({Q: QP}), QP, order).xreplace(num).subs(QP, xq)
+                    fj = sp.diff(Ls[j].xreplace({Q: QP}), QP, order).xreplace(num).subs(QP, xq)
+                    d = sp.N(sp.simplify((fi - fj) / k), 40)
+                    scale = abs(sp.N((fj / k), 40)) + sp.Float("1e-30")
+                    chk.expect(bool(d.is_number and abs(d) <= sp.Float("1e-9") * scale + sp.Float("1e-25")), "R-C02-3",
+                               "%s: branches %d and %d agree at %s (derivative order %d)" % (tagp, i, j, bp, order), loc(fn),
+                               "the smoothing polynomial data in constants.py must be the value/derivative of the neighbouring branches", found="difference/k = %s" % d)
+        chk.floor("R-C02-3", 3 + 4 * 3 + 4 * (3 + 1 + 1 + 4))
 
     # ---------------------------------------------------------------- R-C02-4 coefficients
-    coeff_specs = {
-        "hw_resistance_param": ("hw_resistance", lambda: cs("hw_k") * cs("roughness") ** sp.Rational("-1.852") * cs("diameter") ** sp.Rational("-4.871") * cs("length"),
-                                {"roughness", "diameter", "length"}),
-        "minor_loss_param": ("minor_loss", lambda: 8 * cs("minor_loss") / (sp.Rational("9.81") * sp.pi ** 2 * cs("diameter") ** 4), {"minor_loss", "diameter"}),
-        "tcv_resistance_param": ("tcv_resistance", lambda: 8 * cs("setting") / (sp.Rational("9.81") * sp.pi ** 2 * cs("diameter") ** 4), {"setting", "diameter"}),
-        "pump_power_param": ("pump_power", lambda: cs("power"), {"power"}),
-        "valve_setting_param": ("valve_setting", lambda: cs("setting"), {"setting"}),
-    }
-    for pname, (dname, ref, reads) in coeff_specs.items():
-        fn, paths, ex = B.run_builder(repo, PAR, pname + ".build")
-        chk.fn(fn)
-        for p in paths:
-            st = p.stores("m.%s[" % dname)
-            vals = []
-            for t, v, ln in st:
-                if isinstance(v, Opaque) and v.text.startswith("aml.Param("):
+    with chk.part("R-C02-4 coefficients"):
+        coeff_specs = {
+            "hw_resistance_param": ("hw_resistance", lambda: cs("hw_k") * cs("roughness") ** sp.Rational("-1.852") * cs("diameter") ** sp.Rational("-4.871") * cs("length"),
+                                    {"roughness", "diameter", "length"}),
+            "minor_loss_param": ("minor_loss", lambda: 8 * cs("minor_loss") / (sp.Rational("9.81") * sp.pi ** 2 * cs("diameter") ** 4), {"minor_loss", "diameter"}),
+            "tcv_resistance_param": ("tcv_resistance", lambda: 8 * cs("setting") / (sp.Rational("9.81") * sp.pi ** 2 * cs("diameter") ** 4), {"setting", "diameter"}),
+            "pump_power_param": ("pump_power", lambda: cs("power"), {"power"}),
+            "valve_setting_param": ("valve_setting", lambda: cs("setting"), {"setting"}),
+        }
+        for pname, (dname, ref, reads) in coeff_specs.items():
+            fn, paths, ex = B.run_builder(repo, PAR, pname + ".build")
+            chk.fn(fn)
+            for p in paths:
+                st = p.stores("m.%s[" % dname)
+                vals = []
+                for t, v, ln in st:
+                    if isinstance(v, Opaque) and v.text.startswith("aml.Param("):
+                        continue
+                    vals.append(v)
+                # value is either passed to aml.Param(value) (call event) or stored to .value
+                for e in p.st.events:
+                    if e[0] == "call" and e[1].startswith("aml.Param("):
+                        vals.append(e[2][1][0])
+                if not vals:
+                    chk.bad("R-C02-4", "%s computes a value" % pname, loc(fn), found=p.label)
                     continue
-                vals.append(v)
-            # value is either passed to aml.Param(value) (call event) or stored to .value
-            for e in p.st.events:
-                if e[0] == "call" and e[1].startswith("aml.Param("):
-                    vals.append(e[2][1][0])
-            if not vals:
-                chk.bad("R-C02-4", "%s computes a value" % pname, loc(fn), found=p.label)
-                continue
-            v, _ = canon(S(ex, vals[-1]))
-            chk.expect(is_zero(v - ref()), "R-C02-4", "%s value equals the documented coefficient" % pname, loc(fn),
-                       expected=str(ref()), found=str(v))
-        B.check_updaters(chk, "R-C02-4", fn, pname, paths, reads, loc(fn))
-    chk.floor("R-C02-4", 10)
+                v, _ = canon(S(ex, vals[-1]))
+                chk.expect(is_zero(v - ref()), "R-C02-4", "%s value equals the documented coefficient" % pname, loc(fn),
+                           expected=str(ref()), found=str(v))
+            B.check_updaters(chk, "R-C02-4", fn, pname, paths, reads, loc(fn))
+        chk.floor("R-C02-4", 10)
 
     # ---------------------------------------------------------------- R-C02-5 pumps
-    A, Bc, C = cs("A"), cs("B"), cs("C")
-    fn, fl = formulas("head_pump_headloss_constraint")
-    for case, p, brs, ex in fl:
-        sj, ej = case.sj, case.ej
-        tagp = "head pump [%s]%s" % (case.nodes, path_tag(p))
-        Rf, _ = canon(S(ex, brs[-1][1]))
-        chk.expect(is_zero(Rf - (A - Bc * Q ** C - HE + HS)), "R-C02-5", "%s final branch is He - Hs = A - B q^C" % tagp, loc(fn), found=str(Rf))
-        exprs = [canon(S(ex, e))[0] for g, e in brs]
-        ubs = [canon(S(ex, g.ub))[0] if isinstance(g, Ineq) and g.ub is not None else None for g, e in brs]
-        bodies = [canon(g.body)[0] if isinstance(g, Ineq) else None for g, e in brs]
-        chk.expect(all(b == Q for b in bodies[:-1]), "R-C02-5", "%s low-flow guards are on the flow" % tagp, loc(fn), found=str(bodies))
-        num = dict(csub)
-        for i in range(len(brs) - 1):
-            bp = ubs[i]
-            for order in (0, 1):
-                fi = sp.diff(exprs[i].xreplace({Q: QP}), QP, order).subs(QP, bp).xreplace(num)
-                fj = sp.diff(exprs[i + 1].xreplace({Q: QP}), QP, order).subs(QP, bp).xreplace(num)
-                # the derivative of B q^C at q = pump_q1 = 0 is taken as the limit for C<=1 between polynomial branches only
-                d = sp.simplify(fi - fj)
-                okk = is_zero(d)
-                chk.expect(okk, "R-C02-5", "%s: branches %d and %d agree at the break point (derivative order %d)" % (tagp, i, i + 1, order), loc(fn),
-                           "pump low-flow smoothing must join the curve continuously", found=str(d)[:200])
-    fn, fl = formulas("power_pump_headloss_constraint")
-    for case, p, brs, ex in fl:
-        sj, ej = case.sj, case.ej
-        R, _ = canon(S(ex, brs[0][1]))
-        want = cs("pump_power") + (HS - HE) * Q * sp.Rational("9810")
-        chk.expect(is_zero(R - want), "R-C02-5", "power pump [%s%s]: P = rho g q (He - Hs), rho g = 9810" % ("J" if sj else "S", "J" if ej else "S"), loc(fn),
-                   expected=str(want), found=str(R))
-    # get_head_curve_coefficients: the method is RUN (sa/concrete.py) on pumps of the repository's own HeadPump / Curve classes; the 1- and
-    # 2-point fits are decided on sample curves (the formulas are rational in the points: generic samples, rel. tolerance 1e-9); the
-    # the regression on MORE than three points (scipy curve_fit) is NOT analysed; 3-point curves are, see below
-    gfn = repo.func(ELEM, "HeadPump.get_head_curve_coefficients")
-    chk.fn(gfn)
-    TOL = 1e-9
+    with chk.part("R-C02-5 pumps"):
+        A, Bc, C = cs("A"), cs("B"), cs("C")
+        fn, fl = formulas("head_pump_headloss_constraint")
+        for case, p, brs, ex in fl:
+            sj, ej = case.sj, case.ej
+            tagp = "head pump [%s]%s" % (case.nodes, path_tag(p))
+            Rf, _ = canon(S(ex, brs[-1][1]))
+            chk.expect(is_zero(Rf - (A - Bc * Q ** C - HE + HS)), "R-C02-5", "%s final branch is He - Hs = A - B q^C" % tagp, loc(fn), found=str(Rf))
+            exprs = [canon(S(ex, e))[0] for g, e in brs]
+            ubs = [canon(S(ex, g.ub))[0] if isinstance(g, Ineq) and g.ub is not None else None for g, e in brs]
+            bodies = [canon(g.body)[0] if isinstance(g, Ineq) else None for g, e in brs]
+            chk.expect(all(b == Q for b in bodies[:-1]), "R-C02-5", "%s low-flow guards are on the flow" % tagp, loc(fn), found=str(bodies))
+            num = dict(csub)
+            for i in range(len(brs) - 1):
+                bp = ubs[i]
+                for order in (0, 1):
+                    fi = sp.diff(exprs[i].xreplace({Q: QP}), QP, order).subs(QP, bp).xreplace(num)
+                    fj = sp.diff(exprs[i + 1].xreplace({Q: QP}), QP, order).subs(QP, bp).xreplace(num)
+                    # the derivative of B q^C at q = pump_q1 = 0 is taken as the limit for C<=1 between polynomial branches only
+                    d = sp.simplify(fi - fj)
+                    okk = is_zero(d)
+                    chk.expect(okk, "R-C02-5", "%s: branches %d and %d agree at the break point (derivative order %d)" % (tagp, i, i + 1, order), loc(fn),
+                               "pump low-flow smoothing must join the curve continuously", found=str(d)[:200])
+        fn, fl = formulas("power_pump_headloss_constraint")
+        for case, p, brs, ex in fl:
+            sj, ej = case.sj, case.ej
+            R, _ = canon(S(ex, brs[0][1]))
+            want = cs("pump_power") + (HS - HE) * Q * sp.Rational("9810")
+            chk.expect(is_zero(R - want), "R-C02-5", "power pump [%s%s]: P = rho g q (He - Hs), rho g = 9810" % ("J" if sj else "S", "J" if ej else "S"), loc(fn),
+                       expected=str(want), found=str(R))
+        # get_head_curve_coefficients: the method is RUN (sa/concrete.py) on pumps of the repository's own HeadPump / Curve classes; the 1- and
+        # 2-point fits are decided on sample curves (the formulas are rational in the points: generic samples, rel. tolerance 1e-9); the
+        # the regression on MORE than three points (scipy curve_fit) is NOT analysed; 3-point curves are, see below
+        gfn = repo.func(ELEM, "HeadPump.get_head_curve_coefficients")
+        chk.fn(gfn)
+        TOL = 1e-9
 
-    def close(x, y, scale):
-        return abs(x - y) <= TOL * max(abs(scale), 1e-300)
+        def close(x, y, scale):
+            return abs(x - y) <= TOL * max(abs(scale), 1e-300)
 
-    one_pt = [[(0.05, 30.0)], [(0.1234, 71.5)], [(2.0, 3.25)], [(0.75, 1000.0)]]
-    two_pt = [[(0.0, 40.0), (0.1, 30.0)], [(0.02, 55.5), (0.31, 12.25)], [(0.5, 10.0), (1.5, 4.0)], [(0.0, 30.0), (0.1, 20.0)]]
-    seen = set()
-    fails = {"design": [], "shutoff": [], "zero": [], "p0": [], "p1": []}
-    for pts in one_pt:
-        got, err = fresh_fit(repo, pts)
-        (q0, h0), = pts
-        if err is not None:
-            for k in ("design", "shutoff", "zero"):
-                fails[k].append("%s: %s" % (pts, err))
-            continue
-        seen.add(1)
-        a_, b_, c_ = got
-        if not close(a_ - b_ * q0 ** c_, h0, h0):
-            fails["design"].append("points %s: A=%r B=%r C=%r gives H(Q0)=%r" % (pts, a_, b_, c_, a_ - b_ * q0 ** c_))
-        if not close(a_, 4.0 * h0 / 3.0, h0):
-            fails["shutoff"].append("points %s: A=%r, 4/3 H=%r" % (pts, a_, 4.0 * h0 / 3.0))
-        if not close(a_, b_ * (2 * q0) ** c_, a_):
-            fails["zero"].append("points %s: H(2 Q0)=%r" % (pts, a_ - b_ * (2 * q0) ** c_))
-    chk.expect(not fails["design"], "R-C02-5", "1-point pump curve passes through the design point", loc(gfn), found=fails["design"][:3])
-    chk.expect(not fails["shutoff"], "R-C02-5", "1-point pump curve: shut-off head 4/3 H", loc(gfn), found=fails["shutoff"][:3])
-    chk.expect(not fails["zero"], "R-C02-5", "1-point pump curve: zero head at twice the design flow", loc(gfn), found=fails["zero"][:3])
-    for pts in two_pt:
-        got, err = fresh_fit(repo, pts)
-        if err is not None:
-            for k in ("p0", "p1"):
-                fails[k].append("%s: %s" % (pts, err))
-            continue
-        seen.add(2)
-        a_, b_, c_ = got
-        for i, (qi, hi) in enumerate(pts):
-            if not close(a_ - b_ * qi ** c_, hi, max(h for _q, h in pts)):
-                fails["p%d" % i].append("points %s: A=%r, B=%r, C=%r; H(Q%d)=%r" % (pts, a_, b_, c_, i, a_ - b_ * qi ** c_))
-    for i in (0, 1):
-        chk.expect(not fails["p%d" % i], "R-C02-5", "2-point pump curve H = A - B Q^C passes through point %d" % i, loc(gfn),
-                   "the fitted curve must reproduce the points it was fitted to", expected="A - B*Q%d^C = H%d" % (i, i), found=fails["p%d" % i][:3])
-    chk.expect(seen == {1, 2}, "R-C02-5", "1- and 2-point pump-curve formulas located", loc(gfn), "the fit of a 1-point and of a 2-point curve must return coefficients",
-               found=sorted(seen))
-    # 3-point curves: H = A - B Q^C has three parameters, so the fit must reproduce all three points -- also when the first point is NOT at zero flow (the closed-form
-    # start values A0 = H0, C0, B0 assume it is).  scipy's curve_fit is replaced by a stand-in that returns the exact interpolant (see _curve_fit_stub); whatever the
-    # function does with it (or instead of it), the coefficients it reports are checked against the points.  Regressions on more than three points: not analysed.
-    three_pt = [[(0.0, 40.0), (0.1, 35.0), (0.2, 20.0)], [(0.05, 57.37), (0.1, 50.0), (0.2, 25.0)], [(0.02, 80.0), (0.06, 71.0), (0.11, 40.5)], [(0.5, 12.0), (1.0, 9.0), (2.0, 1.5)]]
-    fails3 = []
-    for pts in three_pt:
-        got, err = fresh_fit(repo, pts)
-        if err is not None:
-            fails3.append("%s: %s" % (pts, err))
-            continue
-        a_, b_, c_ = got
-        for i, (qi, hi) in enumerate(pts):
-            hfit = a_ - b_ * qi ** c_ if qi > 0 else a_
-            if not abs(hfit - hi) <= 1e-6 * pts[0][1]:
-                fails3.append("points %s: A=%r, B=%r, C=%r; H(Q%d)=%r instead of %r" % (pts, a_, b_, c_, i, hfit, hi))
-                break
-    chk.expect(not fails3, "R-C02-5", "3-point pump curve H = A - B Q^C passes through its three points (first point at zero flow or not)", loc(gfn),
-               "three parameters, three points: the fitted curve must reproduce the points; the closed-form start values take A = H0, which is only right when Q0 = 0", found=fails3[:3])
-    # R-C02-5c: the coefficients a pump reports belong to its curve's CURRENT points, whatever was computed before: each scenario computes the
-    # coefficients once (so that anything memoised is in place), changes the curve the way the API allows, and compares the coefficients
-    # reported afterwards with those of a NEW pump on a NEW curve with the same points (differential, exact equality)
-    world, _LS = make_world(repo)
-    P1, P2 = [(0.1, 30.0)], [(0.2, 45.0)]
-    L1, L2 = [(0.0, 40.0), (0.1, 30.0)], [(0.0, 50.0), (0.2, 20.0)]
-    M1, M2 = [(0.0, 40.0), (0.1, 35.0), (0.2, 20.0)], [(0.0, 60.0), (0.1, 50.0), (0.2, 25.0)]
+        one_pt = [[(0.05, 30.0)], [(0.1234, 71.5)], [(2.0, 3.25)], [(0.75, 1000.0)]]
+        two_pt = [[(0.0, 40.0), (0.1, 30.0)], [(0.02, 55.5), (0.31, 12.25)], [(0.5, 10.0), (1.5, 4.0)], [(0.0, 30.0), (0.1, 20.0)]]
+        seen = set()
+        fails = {"design": [], "shutoff": [], "zero": [], "p0": [], "p1": []}
+        for pts in one_pt:
+            got, err = fresh_fit(repo, pts)
+            (q0, h0), = pts
+            if err is not None:
+                for k in ("design", "shutoff", "zero"):
+                    fails[k].append("%s: %s" % (pts, err))
+                continue
+            seen.add(1)
+            a_, b_, c_ = got
+            if not close(a_ - b_ * q0 ** c_, h0, h0):
+                fails["design"].append("points %s: A=%r B=%r C=%r gives H(Q0)=%r" % (pts, a_, b_, c_, a_ - b_ * q0 ** c_))
+            if not close(a_, 4.0 * h0 / 3.0, h0):
+                fails["shutoff"].append("points %s: A=%r, 4/3 H=%r" % (pts, a_, 4.0 * h0 / 3.0))
+            if not close(a_, b_ * (2 * q0) ** c_, a_):
+                fails["zero"].append("points %s: H(2 Q0)=%r" % (pts, a_ - b_ * (2 * q0) ** c_))
+        chk.expect(not fails["design"], "R-C02-5", "1-point pump curve passes through the design point", loc(gfn), found=fails["design"][:3])
+        chk.expect(not fails["shutoff"], "R-C02-5", "1-point pump curve: shut-off head 4/3 H", loc(gfn), found=fails["shutoff"][:3])
+        chk.expect(not fails["zero"], "R-C02-5", "1-point pump curve: zero head at twice the design flow", loc(gfn), found=fails["zero"][:3])
+        for pts in two_pt:
+            got, err = fresh_fit(repo, pts)
+            if err is not None:
+                for k in ("p0", "p1"):
+                    fails[k].append("%s: %s" % (pts, err))
+                continue
+            seen.add(2)
+            a_, b_, c_ = got
+            for i, (qi, hi) in enumerate(pts):
+                if not close(a_ - b_ * qi ** c_, hi, max(h for _q, h in pts)):
+                    fails["p%d" % i].append("points %s: A=%r, B=%r, C=%r; H(Q%d)=%r" % (pts, a_, b_, c_, i, a_ - b_ * qi ** c_))
+        for i in (0, 1):
+            chk.expect(not fails["p%d" % i], "R-C02-5", "2-point pump curve H = A - B Q^C passes through point %d" % i, loc(gfn),
+                       "the fitted curve must reproduce the points it was fitted to", expected="A - B*Q%d^C = H%d" % (i, i), found=fails["p%d" % i][:3])
+        chk.expect(seen == {1, 2}, "R-C02-5", "1- and 2-point pump-curve formulas located", loc(gfn), "the fit of a 1-point and of a 2-point curve must return coefficients",
+                   found=sorted(seen))
+        # 3-point curves: H = A - B Q^C has three parameters, so the fit must reproduce all three points -- also when the first point is NOT at zero flow (the closed-form
+        # start values A0 = H0, C0, B0 assume it is).  scipy's curve_fit is replaced by a stand-in that returns the exact interpolant (see _curve_fit_stub); whatever the
+        # function does with it (or instead of it), the coefficients it reports are checked against the points.  Regressions on more than three points: not analysed.
+        three_pt = [[(0.0, 40.0), (0.1, 35.0), (0.2, 20.0)], [(0.05, 57.37), (0.1, 50.0), (0.2, 25.0)], [(0.02, 80.0), (0.06, 71.0), (0.11, 40.5)], [(0.5, 12.0), (1.0, 9.0), (2.0, 1.5)]]
+        fails3 = []
+        for pts in three_pt:
+            got, err = fresh_fit(repo, pts)
+            if err is not None:
+                fails3.append("%s: %s" % (pts, err))
+                continue
+            a_, b_, c_ = got
+            for i, (qi, hi) in enumerate(pts):
+                hfit = a_ - b_ * qi ** c_ if qi > 0 else a_
+                if not abs(hfit - hi) <= 1e-6 * pts[0][1]:
+                    fails3.append("points %s: A=%r, B=%r, C=%r; H(Q%d)=%r instead of %r" % (pts, a_, b_, c_, i, hfit, hi))
+                    break
+        chk.expect(not fails3, "R-C02-5", "3-point pump curve H = A - B Q^C passes through its three points (first point at zero flow or not)", loc(gfn),
+                   "three parameters, three points: the fitted curve must reproduce the points; the closed-form start values take A = H0, which is only right when Q0 = 0", found=fails3[:3])
+        # R-C02-5c: the coefficients a pump reports belong to its curve's CURRENT points, whatever was computed before: each scenario computes the
+        # coefficients once (so that anything memoised is in place), changes the curve the way the API allows, and compares the coefficients
+        # reported afterwards with those of a NEW pump on a NEW curve with the same points (differential, exact equality)
+        world, _LS = make_world(repo)
+        P1, P2 = [(0.1, 30.0)], [(0.2, 45.0)]
+        L1, L2 = [(0.0, 40.0), (0.1, 30.0)], [(0.0, 50.0), (0.2, 20.0)]
+        M1, M2 = [(0.0, 40.0), (0.1, 35.0), (0.2, 20.0)], [(0.0, 60.0), (0.1, 50.0), (0.2, 25.0)]
 
-    def current_points(curve):
-        pts, err = interpreted("Curve.points", lambda: world.interp.getattr_(curve, "points"))
-        if err is not None or not isinstance(pts, (list, tuple)):
-            raise ExtractError("Curve.points of the mock world's curve: %s" % (err or repr(pts)))
-        return pts
+        def current_points(curve):
+            pts, err = interpreted("Curve.points", lambda: world.interp.getattr_(curve, "points"))
+            if err is not None or not isinstance(pts, (list, tuple)):
+                raise ExtractError("Curve.points of the mock world's curve: %s" % (err or repr(pts)))
+            return pts
 
-    def reassign(points):
-        def f(pump, curves):
-            world.interp.setattr_(curves["c"], "points", list(points))
-        return f
+        def reassign(points):
+            def f(pump, curves):
+                world.interp.setattr_(curves["c"], "points", list(points))
+            return f
 
-    def set_item(i, pt):
-        def f(pump, curves):
-            current_points(curves["c"])[i] = pt
-        return f
+        def set_item(i, pt):
+            def f(pump, curves):
+                current_points(curves["c"])[i] = pt
+            return f
 
-    def append(pt):
-        def f(pump, curves):
-            current_points(curves["c"]).append(pt)
-        return f
+        def append(pt):
+            def f(pump, curves):
+                current_points(curves["c"]).append(pt)
+            return f
 
-    def other_curve(pump, curves):
-        world.interp.setattr_(pump, "pump_curve_name", "d")
+        def other_curve(pump, curves):
+            world.interp.setattr_(pump, "pump_curve_name", "d")
 
-    def memo_scenario(start, change, other=None):
-        """-> None when the coefficients after `change` are those of the curve's current points, else a description"""
-        curves = {"c": list(start)}
-        if other is not None:
-            curves["d"] = list(other)
-        pump, objs = head_pump(repo, curves, "c")
-        first, err = head_curve_coefficients(repo, pump)
-        if err is not None:
-            return "first call on %s: %s" % (start, err)
-        again, err = head_curve_coefficients(repo, pump)
-        if err is not None or again != first:
-            return "a second call on the unchanged curve %s gives %s after %s" % (start, err or (again,), first)
-        _r, err = interpreted("changing the curve", lambda: change(pump, objs))
-        if err is not None:
-            return "changing the curve: %s" % err
-        now_curve, err = interpreted("HeadPump.get_pump_curve", lambda: world.interp.getattr_(pump, "get_pump_curve")())
-        if err is not None:
-            return "get_pump_curve: %s" % err
-        now = [tuple(pt) for pt in current_points(now_curve)]
-        after, err = head_curve_coefficients(repo, pump)
-        want, werr = fresh_fit(repo, now)
-        if (after, err) != (want, werr):
-            return "points %s -> %s: the pump reports %s, a fresh fit of the current points gives %s" % (list(start), now, err or (after,), werr or (want,))
-        return None
+        def memo_scenario(start, change, other=None):
+            """-> None when the coefficients after `change` are those of the curve's current points, else a description"""
+            curves = {"c": list(start)}
+            if other is not None:
+                curves["d"] = list(other)
+            pump, objs = head_pump(repo, curves, "c")
+            first, err = head_curve_coefficients(repo, pump)
+            if err is not None:
+                return "first call on %s: %s" % (start, err)
+            again, err = head_curve_coefficients(repo, pump)
+            if err is not None or again != first:
+                return "a second call on the unchanged curve %s gives %s after %s" % (start, err or (again,), first)
+            _r, err = interpreted("changing the curve", lambda: change(pump, objs))
+            if err is not None:
+                return "changing the curve: %s" % err
+            now_curve, err = interpreted("HeadPump.get_pump_curve", lambda: world.interp.getattr_(pump, "get_pump_curve")())
+            if err is not None:
+                return "get_pump_curve: %s" % err
+            now = [tuple(pt) for pt in current_points(now_curve)]
+            after, err = head_curve_coefficients(repo, pump)
+            want, werr = fresh_fit(repo, now)
+            if (after, err) != (want, werr):
+                return "points %s -> %s: the pump reports %s, a fresh fit of the current points gives %s" % (list(start), now, err or (after,), werr or (want,))
+            return None
 
-    bad_ = [r for r in (memo_scenario(P1, set_item(0, P2[0])), memo_scenario(P1, append((0.3, 10.0))), memo_scenario(L1, set_item(1, (0.25, 10.0))),
-                        memo_scenario(M1, set_item(2, (0.2, 10.0)))) if r]
-    chk.expect(not bad_, "R-C02-5", "the points stored with the memoised fit are a copy, not the curve's live list", loc(gfn),
-               "Curve.points returns the internal list: after an in-place edit (curve.points[0] = ..., .append) a memo keyed by that very list compares equal to itself and "
-               "the pump keeps the coefficients of the old curve", expected="coefficients of the edited points", found=bad_[:3])
-    bad_ = [r for r in (memo_scenario(P1, reassign(P2)), memo_scenario(L1, reassign(L2)), memo_scenario(P1, reassign(L2)), memo_scenario(L2, reassign(P1)),
-                        memo_scenario(M1, reassign(M2)), memo_scenario(M1, reassign(L1))) if r]
-    chk.expect(not bad_, "R-C02-5", "get_head_curve_coefficients re-fits A, B, C whenever the curve's points differ from the points of the memoised fit", loc(gfn),
-               "a head pump must lie on the curve fitted to its CURRENT points: after `curve.points = [...]` a stale memo makes every later run use the old curve",
-               expected="coefficients of the re-assigned points", found=bad_[:3])
-    psetter = repo.func(ELEM, "HeadPump.pump_curve_name", kind="setter")
-    chk.fn(psetter)
-    bad_ = [r for r in (memo_scenario(P1, other_curve, other=P2), memo_scenario(L1, other_curve, other=L2), memo_scenario(P1, other_curve, other=L1),
-                        memo_scenario(M1, other_curve, other=M2)) if r]
-    chk.expect(not bad_, "R-C02-5", "assigning another curve to the pump (pump_curve_name setter) drops the memoised coefficients", loc(psetter),
-               expected="coefficients of the newly assigned curve", found=bad_[:3])
-    chk.floor("R-C02-5", 8 + 4 + 6 + 2 + 1)
+        bad_ = [r for r in (memo_scenario(P1, set_item(0, P2[0])), memo_scenario(P1, append((0.3, 10.0))), memo_scenario(L1, set_item(1, (0.25, 10.0))),
+                            memo_scenario(M1, set_item(2, (0.2, 10.0)))) if r]
+        chk.expect(not bad_, "R-C02-5", "the points stored with the memoised fit are a copy, not the curve's live list", loc(gfn),
+                   "Curve.points returns the internal list: after an in-place edit (curve.points[0] = ..., .append) a memo keyed by that very list compares equal to itself and "
+                   "the pump keeps the coefficients of the old curve", expected="coefficients of the edited points", found=bad_[:3])
+        bad_ = [r for r in (memo_scenario(P1, reassign(P2)), memo_scenario(L1, reassign(L2)), memo_scenario(P1, reassign(L2)), memo_scenario(L2, reassign(P1)),
+                            memo_scenario(M1, reassign(M2)), memo_scenario(M1, reassign(L1))) if r]
+        chk.expect(not bad_, "R-C02-5", "get_head_curve_coefficients re-fits A, B, C whenever the curve's points differ from the points of the memoised fit", loc(gfn),
+                   "a head pump must lie on the curve fitted to its CURRENT points: after `curve.points = [...]` a stale memo makes every later run use the old curve",
+                   expected="coefficients of the re-assigned points", found=bad_[:3])
+        psetter = repo.func(ELEM, "HeadPump.pump_curve_name", kind="setter")
+        chk.fn(psetter)
+        bad_ = [r for r in (memo_scenario(P1, other_curve, other=P2), memo_scenario(L1, other_curve, other=L2), memo_scenario(P1, other_curve, other=L1),
+                            memo_scenario(M1, other_curve, other=M2)) if r]
+        chk.expect(not bad_, "R-C02-5", "assigning another curve to the pump (pump_curve_name setter) drops the memoised coefficients", loc(psetter),
+                   expected="coefficients of the newly assigned curve", found=bad_[:3])
+        chk.floor("R-C02-5", 8 + 4 + 6 + 2 + 1)
 
     # ---------------------------------------------------------------- R-C02-6 valves
-    # the registered relation is compared AS A FUNCTION of the flow: for q > 0 and for q < 0 the branch in force (first guard that holds) must equal
-    # the documented relation -- one expression with sign(q), two branches split at q <= 0 or at q >= 0 are the same function
-    minor = sp.sign(Q) * Km * Q ** 2 - HS + HE
-    valve_ref = {
-        ("prv_headloss_constraint", "Active"): HE - cs("valve_setting") - cs("elev_end"),
-        ("prv_headloss_constraint", "Open"): minor,
-        ("psv_headloss_constraint", "Active"): HS - cs("valve_setting") - cs("elev_start"),
-        ("psv_headloss_constraint", "Open"): minor,
-        ("fcv_headloss_constraint", "Active"): Q - cs("valve_setting"),
-        ("fcv_headloss_constraint", "Open"): minor,
-        ("tcv_headloss_constraint", "Active"): sp.sign(Q) * cs("tcv_resistance") * Q ** 2 - HS + HE,
-        ("tcv_headloss_constraint", "Open"): minor,
-    }
+    with chk.part("R-C02-6 valves"):
+        # the registered relation is compared AS A FUNCTION of the flow: for q > 0 and for q < 0 the branch in force (first guard that holds) must equal
+        # the documented relation -- one expression with sign(q), two branches split at q <= 0 or at q >= 0 are the same function
+        minor = sp.sign(Q) * Km * Q ** 2 - HS + HE
+        valve_ref = {
+            ("prv_headloss_constraint", "Active"): HE - cs("valve_setting") - cs("elev_end"),
+            ("prv_headloss_constraint", "Open"): minor,
+            ("psv_headloss_constraint", "Active"): HS - cs("valve_setting") - cs("elev_start"),
+            ("psv_headloss_constraint", "Open"): minor,
+            ("fcv_headloss_constraint", "Active"): Q - cs("valve_setting"),
+            ("fcv_headloss_constraint", "Open"): minor,
+            ("tcv_headloss_constraint", "Active"): sp.sign(Q) * cs("tcv_resistance") * Q ** 2 - HS + HE,
+            ("tcv_headloss_constraint", "Open"): minor,
+        }
 
-    def in_force(brs, ex, qsym):
-        """the canonical residual in force for a flow of the sign of qsym (None: a guard is not a test of the flow's sign)"""
-        for g, e in brs:
-            if g is not None:
-                if not isinstance(g, Ineq):
-                    return None
-                body = canon(g.body)[0].xreplace({Q: qsym})
-                lb = None if g.lb is None else canon(S(ex, g.lb))[0]
-                ub = None if g.ub is None else canon(S(ex, g.ub))[0]
-                if any(x is not None and x != 0 for x in (lb, ub)) or (lb is None and ub is None):
-                    return None
-                sg = sign_of(body)
-                if sg not in (1, -1) or not (body.is_positive or body.is_negative):
-                    return None
-                holds = (lb is None or sg > 0) and (ub is None or sg < 0)
-                if not holds:
-                    continue
-            return canon(S(ex, e))[0].xreplace({Q: qsym})
-        return None
+        def in_force(brs, ex, qsym):
+            """the canonical residual in force for a flow of the sign of qsym (None: a guard is not a test of the flow's sign)"""
+            for g, e in brs:
+                if g is not None:
+                    if not isinstance(g, Ineq):
+                        return None
+                    body = canon(g.body)[0].xreplace({Q: qsym})
+                    lb = None if g.lb is None else canon(S(ex, g.lb))[0]
+                    ub = None if g.ub is None else canon(S(ex, g.ub))[0]
+                    if any(x is not None and x != 0 for x in (lb, ub)) or (lb is None and ub is None):
+                        return None
+                    sg = sign_of(body)
+                    if sg not in (1, -1) or not (body.is_positive or body.is_negative):
+                        return None
+                    holds = (lb is None or sg > 0) and (ub is None or sg < 0)
+                    if not holds:
+                        continue
+                return canon(S(ex, e))[0].xreplace({Q: qsym})
+            return None
 
-    seenv = set()
-    for bname in VALVE_BUILDERS:
-        fn, fl = formulas(bname)
-        for case, p, brs, ex in fl:
-            stat = case.status
-            ref = valve_ref[(bname, stat)]
-            seenv.add((bname, stat))
-            tagv = "%s %s [%s]%s" % (bname, stat, case.nodes, path_tag(p))
-            fwd, rev = in_force(brs, ex, QP), in_force(brs, ex, QN)
-            chk.expect(fwd is not None and is_zero(fwd - ref.xreplace({Q: QP})), "R-C02-6", "%s: documented valve relation" % tagv, loc(fn),
-                       expected=str(ref), found=[str(canon(S(ex, e))[0]) for g, e in brs])
-            # a loss coefficient takes head in the direction of flow: the relation must be odd in q
-            chk.expect(rev is not None and is_zero(rev - ref.xreplace({Q: QN})), "R-C02-6", "%s: the relation in force for reverse flow" % tagv, loc(fn),
-                       "K*q^2 - Hs + He alone is even in q: for q < 0 the valve ADDS K*q^2 of head in the flow direction (PRV/PSV with fixed status OPEN: Hs - He = +77 m "
-                       "instead of -77 m)", expected=str(ref), found=[(str(g), str(canon(S(ex, e))[0])) for g, e in brs])
-    chk.expect(seenv == set(valve_ref), "R-C02-6", "all valve type/status branches located", loc(CON), found=sorted(set(valve_ref) - seenv))
-    chk.floor("R-C02-6", 32)
+        seenv = set()
+        for bname in VALVE_BUILDERS:
+            fn, fl = formulas(bname)
+            for case, p, brs, ex in fl:
+                stat = case.status
+                ref = valve_ref[(bname, stat)]
+                seenv.add((bname, stat))
+                tagv = "%s %s [%s]%s" % (bname, stat, case.nodes, path_tag(p))
+                fwd, rev = in_force(brs, ex, QP), in_force(brs, ex, QN)
+                chk.expect(fwd is not None and is_zero(fwd - ref.xreplace({Q: QP})), "R-C02-6", "%s: documented valve relation" % tagv, loc(fn),
+                           expected=str(ref), found=[str(canon(S(ex, e))[0]) for g, e in brs])
+                # a loss coefficient takes head in the direction of flow: the relation must be odd in q
+                chk.expect(rev is not None and is_zero(rev - ref.xreplace({Q: QN})), "R-C02-6", "%s: the relation in force for reverse flow" % tagv, loc(fn),
+                           "K*q^2 - Hs + He alone is even in q: for q < 0 the valve ADDS K*q^2 of head in the flow direction (PRV/PSV with fixed status OPEN: Hs - He = +77 m "
+                           "instead of -77 m)", expected=str(ref), found=[(str(g), str(canon(S(ex, e))[0])) for g, e in brs])
+        chk.expect(seenv == set(valve_ref), "R-C02-6", "all valve type/status branches located", loc(CON), found=sorted(set(valve_ref) - seenv))
+        chk.floor("R-C02-6", 32)
 
     # ---------------------------------------------------------------- R-C02-7 status resolution
-    members = ["Closed", "Open", "Active"]
-    for cname, rule in (("Pipe", "int-closed"), ("Pump", "int-closed"), ("Valve", "user-first")):
-        fn = repo.func(ELEM, "%s.status" % cname, kind="getter")
-        chk.fn(fn)
-        tab = status_table(repo, cname)
-        for u, i in itertools.product(members, members):
-            if rule == "int-closed":
-                want = "Closed" if i == "Closed" else u
-            else:
-                want = u if u in ("Closed", "Open") else i
-            chk.expect(tab[(u, i)] == want, "R-C02-7", "%s.status(user=%s, internal=%s) = %s" % (cname, u, i, want), loc(fn),
-                       "effective status: pipes/pumps are closed by their internal status else follow the user; valves follow a fixed user status else the internal one",
-                       expected=want, found=tab[(u, i)])
-    chk.floor("R-C02-7", 27)
+    with chk.part("R-C02-7 status resolution"):
+        members = ["Closed", "Open", "Active"]
+        for cname, rule in (("Pipe", "int-closed"), ("Pump", "int-closed"), ("Valve", "user-first")):
+            fn = repo.func(ELEM, "%s.status" % cname, kind="getter")
+            chk.fn(fn)
+            tab = status_table(repo, cname)
+            for u, i in itertools.product(members, members):
+                if rule == "int-closed":
+                    want = "Closed" if i == "Closed" else u
+                else:
+                    want = u if u in ("Closed", "Open") else i
+                chk.expect(tab[(u, i)] == want, "R-C02-7", "%s.status(user=%s, internal=%s) = %s" % (cname, u, i, want), loc(fn),
+                           "effective status: pipes/pumps are closed by their internal status else follow the user; valves follow a fixed user status else the internal one",
+                           expected=want, found=tab[(u, i)])
+        chk.floor("R-C02-7", 27)
 
     # ---------------------------------------------------------------- R-C02-8 no reverse flow
-    # each condition object is built by its own constructor on mock nodes / link / network and its evaluate() is run (sa/concrete.py) on one
-    # sample point per region of the (head difference, flow[, internal status]) space
-    def cond(cname, dh_start_minus_end, flow, internal="Open", shutoff=None):
-        got, err = condition_value(repo, cname, (0.0, -dh_start_minus_end), flow, internal, shutoff)
-        return got if err is None else "raises " + err
+    with chk.part("R-C02-8 no reverse flow"):
+        # each condition object is built by its own constructor on mock nodes / link / network and its evaluate() is run (sa/concrete.py) on one
+        # sample point per region of the (head difference, flow[, internal status]) space
+        def cond(cname, dh_start_minus_end, flow, internal="Open", shutoff=None):
+            got, err = condition_value(repo, cname, (0.0, -dh_start_minus_end), flow, internal, shutoff)
+            return got if err is None else "raises " + err
 
-    fclose, fopen = repo.func(CTRL, "_CloseCVCondition.evaluate"), repo.func(CTRL, "_OpenCVCondition.evaluate")
-    chk.fn(fclose, fopen)
-    cc = class_constants(repo, CTRL, "_CloseCVCondition")
-    Ht, Qt = named_constant(cc, "Htol", HTOL_SI), named_constant(cc, "Qtol", QTOL_SI)
-    if not (0 < Ht < 1e-2 and 0 < Qt < 1e-3):
-        chk.bad("R-C02-8", "_CloseCVCondition tolerances are small positive numbers", loc(fclose), found=cc)
-    else:
-        dhs = [-1.0, -2 * Ht, -Ht / 2, 0.0, Ht / 2, 2 * Ht, 1.0]
-        qs = [-1.0, -2 * Qt, -Qt / 2, 0.0, Qt / 2, 1.0]
-        for dh, q in itertools.product(dhs, qs):
-            close = cond("_CloseCVCondition", dh, q)
-            opn = cond("_OpenCVCondition", dh, q)
-            must_close = q < -Qt or dh < -Ht
-            region = "dh=%+.3g*Htol q=%+.3g*Qtol" % (dh / Ht, q / Qt)
-            if must_close:
-                chk.expect(close is True, "R-C02-8", "check valve closes on reverse flow / adverse head [%s]" % region, loc(fclose),
-                           "a CV pipe must close whenever flow < -Qtol or Hs - He < -Htol", expected=True, found=close)
-                chk.expect(opn is False, "R-C02-8", "check valve does not re-open while reverse conditions hold [%s]" % region, loc(fopen), expected=False, found=opn)
-            chk.expect(not (close is True and opn is True) and isinstance(close, bool) and isinstance(opn, bool), "R-C02-8",
-                       "close and open conditions are never both true [%s]" % region, loc(fopen), found="close=%s open=%s" % (close, opn))
-    # pumps: closed above the shut-off head AND whenever they carry reverse flow; never both conditions true; able to re-open below the shut-off head
-    Aval = 50.0
-    for pclose, popen, head in (("_CloseHeadPumpCondition", "_OpenHeadPumpCondition", True), ("_ClosePowerPumpCondition", "_OpenPowerPumpCondition", False)):
-        f1, f2 = repo.func(CTRL, pclose + ".evaluate"), repo.func(CTRL, popen + ".evaluate")
-        chk.fn(f1, f2)
-        cc1 = class_constants(repo, CTRL, pclose)
-        # a head pump's shut-off head is the A its (stubbed) curve fit reports; a power pump has none (the class constant Hmax, 1e10)
-        hmax = Aval if head else named_constant(cc1, "Hmax", 1e10)
-        ht = named_constant(cc1, "Htol", HTOL_SI)
-        qt = named_constant(cc1, "Qtol", Qt)
-        dvals = [hmax - 1.0, hmax + 1.0] if hmax < 1e9 else [0.0, 10.0]
-        for d, q, ist in itertools.product(dvals, (-1.0, -2 * qt, 0.0, 1.0), ("Open", "Closed")):
-            close = cond(pclose, -d, q, ist, Aval)
-            opn = cond(popen, -d, q, ist, Aval)
-            region = "dh-Hmax=%+.3g q=%+.3g*Qtol internal=%s" % (d - hmax, q / qt, ist)
-            must_close = q < -qt or d > hmax + ht
-            if must_close:
-                chk.expect(close is True, "R-C02-8", "%s is true on reverse flow / above the shut-off head [%s]" % (pclose, region), loc(f1),
-                           "pumps never report reverse flow beyond the flow tolerance: for q < 0 the pump relation is flat at the shut-off head (head pump) or has a second root "
-                           "(power pump), so a head test alone never closes a pump that runs backwards", expected=True, found=close)
-                chk.expect(opn is False, "R-C02-8", "%s does not re-open the pump while it must be closed [%s]" % (popen, region), loc(f2), expected=False, found=opn)
-            else:
-                chk.expect(close is False, "R-C02-8", "%s leaves a forward-running pump below the shut-off head alone [%s]" % (pclose, region), loc(f1), expected=False, found=close)
-                if d < hmax - 0.5:
-                    chk.expect(opn is True, "R-C02-8", "%s re-opens a pump well below the shut-off head [%s]" % (popen, region), loc(f2), expected=True, found=opn)
-            chk.expect(not (close is True and opn is True) and isinstance(close, bool) and isinstance(opn, bool), "R-C02-8",
-                       "%s / %s are never both true [%s]" % (pclose, popen, region), loc(f2), found="close=%s open=%s" % (close, opn))
-    chk.floor("R-C02-8", 40)
+        fclose, fopen = repo.func(CTRL, "_CloseCVCondition.evaluate"), repo.func(CTRL, "_OpenCVCondition.evaluate")
+        chk.fn(fclose, fopen)
+        cc = class_constants(repo, CTRL, "_CloseCVCondition")
+        Ht, Qt = named_constant(cc, "Htol", HTOL_SI), named_constant(cc, "Qtol", QTOL_SI)
+        if not (0 < Ht < 1e-2 and 0 < Qt < 1e-3):
+            chk.bad("R-C02-8", "_CloseCVCondition tolerances are small positive numbers", loc(fclose), found=cc)
+        else:
+            dhs = [-1.0, -2 * Ht, -Ht / 2, 0.0, Ht / 2, 2 * Ht, 1.0]
+            qs = [-1.0, -2 * Qt, -Qt / 2, 0.0, Qt / 2, 1.0]
+            for dh, q in itertools.product(dhs, qs):
+                close = cond("_CloseCVCondition", dh, q)
+                opn = cond("_OpenCVCondition", dh, q)
+                must_close = q < -Qt or dh < -Ht
+                region = "dh=%+.3g*Htol q=%+.3g*Qtol" % (dh / Ht, q / Qt)
+                if must_close:
+                    chk.expect(close is True, "R-C02-8", "check valve closes on reverse flow / adverse head [%s]" % region, loc(fclose),
+                               "a CV pipe must close whenever flow < -Qtol or Hs - He < -Htol", expected=True, found=close)
+                    chk.expect(opn is False, "R-C02-8", "check valve does not re-open while reverse conditions hold [%s]" % region, loc(fopen), expected=False, found=opn)
+                chk.expect(not (close is True and opn is True) and isinstance(close, bool) and isinstance(opn, bool), "R-C02-8",
+                           "close and open conditions are never both true [%s]" % region, loc(fopen), found="close=%s open=%s" % (close, opn))
+        # pumps: closed above the shut-off head AND whenever they carry reverse flow; never both conditions true; able to re-open below the shut-off head
+        Aval = 50.0
+        for pclose, popen, head in (("_CloseHeadPumpCondition", "_OpenHeadPumpCondition", True), ("_ClosePowerPumpCondition", "_OpenPowerPumpCondition", False)):
+            f1, f2 = repo.func(CTRL, pclose + ".evaluate"), repo.func(CTRL, popen + ".evaluate")
+            chk.fn(f1, f2)
+            cc1 = class_constants(repo, CTRL, pclose)
+            # a head pump's shut-off head is the A its (stubbed) curve fit reports; a power pump has none (the class constant Hmax, 1e10)
+            hmax = Aval if head else named_constant(cc1, "Hmax", 1e10)
+            ht = named_constant(cc1, "Htol", HTOL_SI)
+            qt = named_constant(cc1, "Qtol", Qt)
+            dvals = [hmax - 1.0, hmax + 1.0] if hmax < 1e9 else [0.0, 10.0]
+            for d, q, ist in itertools.product(dvals, (-1.0, -2 * qt, 0.0, 1.0), ("Open", "Closed")):
+                close = cond(pclose, -d, q, ist, Aval)
+                opn = cond(popen, -d, q, ist, Aval)
+                region = "dh-Hmax=%+.3g q=%+.3g*Qtol internal=%s" % (d - hmax, q / qt, ist)
+                must_close = q < -qt or d > hmax + ht
+                if must_close:
+                    chk.expect(close is True, "R-C02-8", "%s is true on reverse flow / above the shut-off head [%s]" % (pclose, region), loc(f1),
+                               "pumps never report reverse flow beyond the flow tolerance: for q < 0 the pump relation is flat at the shut-off head (head pump) or has a second root "
+                               "(power pump), so a head test alone never closes a pump that runs backwards", expected=True, found=close)
+                    chk.expect(opn is False, "R-C02-8", "%s does not re-open the pump while it must be closed [%s]" % (popen, region), loc(f2), expected=False, found=opn)
+                else:
+                    chk.expect(close is False, "R-C02-8", "%s leaves a forward-running pump below the shut-off head alone [%s]" % (pclose, region), loc(f1), expected=False, found=close)
+                    if d < hmax - 0.5:
+                        chk.expect(opn is True, "R-C02-8", "%s re-opens a pump well below the shut-off head [%s]" % (popen, region), loc(f2), expected=True, found=opn)
+                chk.expect(not (close is True and opn is True) and isinstance(close, bool) and isinstance(opn, bool), "R-C02-8",
+                           "%s / %s are never both true [%s]" % (pclose, popen, region), loc(f2), found="close=%s open=%s" % (close, opn))
+        chk.floor("R-C02-8", 40)
 
     # ---------------------------------------------------------------- R-C02-9 status conditions read the state of the moment
-    # the simulator builds every internal status condition ONCE per run_sim and evaluates it after every solve; heads, flows, internal statuses and
-    # (through controls) valve settings change in between.  Differential, interpreted (T3, bounded to the state pairs below): a condition built in
-    # state S1 and evaluated after the mocks moved to S2 must give what a condition freshly built in S2 gives.
-    internal = sorted(n for n, c in repo.classes(CTRL).items() if n.startswith("_") and n.endswith("Condition")
-                      and any(isinstance(m, ast.FunctionDef) and m.name == "evaluate" for m in c.body))
-    if len(internal) < 12:
-        raise AnchorError("internal status condition classes not found in %s (%s)" % (CTRL, internal))
-    S1 = dict(hs=40.0, he=35.0, flow=0.02, internal="Active", setting=30.0)
-    moves = [dict(S1, setting=80.0), dict(S1, setting=5.0), dict(S1, hs=20.0, he=36.0), dict(S1, flow=-0.02), dict(S1, internal="Closed", flow=0.0),
-             dict(S1, internal="Closed", flow=0.0, setting=80.0), dict(S1, internal="Open", setting=60.0), dict(S1, internal="Open", he=90.0, hs=95.0, setting=50.0),
-             dict(S1, internal="Closed", flow=0.0, hs=60.0, he=10.0, setting=45.0), dict(S1, flow=1e-9, setting=0.5)]
-    for cname in internal:
-        bad_ = []
-        for S2 in moves:
-            cond_, apply = condition_world(repo, cname, S1)
-            apply(S2)
-            got = evaluate_condition(repo, cname, cond_)
-            fresh, _ap = condition_world(repo, cname, S2)
-            want = evaluate_condition(repo, cname, fresh)
-            if got != want:
-                bad_.append("after %s: %s, a condition built in that state: %s" % ({k: v for k, v in S2.items() if S1[k] != v}, got[1] or got[0], want[1] or want[0]))
-        chk.expect(not bad_, "R-C02-9", "%s.evaluate decides on the state at the time of evaluation" % cname, loc(repo.func(CTRL, cname + ".evaluate")),
-                   "the condition objects are built once per run_sim; a quantity cached at construction (a valve's setting turned into a head, a node's head) goes stale when a control "
-                   "or the solver changes it: the status automaton keeps deciding on the initial value while the head-loss row follows the new one",
-                   expected="same verdict as a condition built in the new state", found=bad_[:3])
-    chk.floor("R-C02-9", 12)
+    with chk.part("R-C02-9 status conditions read the state of the moment"):
+        # the simulator builds every internal status condition ONCE per run_sim and evaluates it after every solve; heads, flows, internal statuses and
+        # (through controls) valve settings change in between.  Differential, interpreted (T3, bounded to the state pairs below): a condition built in
+        # state S1 and evaluated after the mocks moved to S2 must give what a condition freshly built in S2 gives.
+        internal = sorted(n for n, c in repo.classes(CTRL).items() if n.startswith("_") and n.endswith("Condition")
+                          and any(isinstance(m, ast.FunctionDef) and m.name == "evaluate" for m in c.body))
+        if len(internal) < 12:
+            raise AnchorError("internal status condition classes not found in %s (%s)" % (CTRL, internal))
+        S1 = dict(hs=40.0, he=35.0, flow=0.02, internal="Active", setting=30.0)
+        moves = [dict(S1, setting=80.0), dict(S1, setting=5.0), dict(S1, hs=20.0, he=36.0), dict(S1, flow=-0.02), dict(S1, internal="Closed", flow=0.0),
+                 dict(S1, internal="Closed", flow=0.0, setting=80.0), dict(S1, internal="Open", setting=60.0), dict(S1, internal="Open", he=90.0, hs=95.0, setting=50.0),
+                 dict(S1, internal="Closed", flow=0.0, hs=60.0, he=10.0, setting=45.0), dict(S1, flow=1e-9, setting=0.5)]
+        for cname in internal:
+            bad_ = []
+            for S2 in moves:
+                cond_, apply = condition_world(repo, cname, S1)
+                apply(S2)
+                got = evaluate_condition(repo, cname, cond_)
+                fresh, _ap = condition_world(repo, cname, S2)
+                want = evaluate_condition(repo, cname, fresh)
+                if got != want:
+                    bad_.append("after %s: %s, a condition built in that state: %s" % ({k: v for k, v in S2.items() if S1[k] != v}, got[1] or got[0], want[1] or want[0]))
+            chk.expect(not bad_, "R-C02-9", "%s.evaluate decides on the state at the time of evaluation" % cname, loc(repo.func(CTRL, cname + ".evaluate")),
+                       "the condition objects are built once per run_sim; a quantity cached at construction (a valve's setting turned into a head, a node's head) goes stale when a control "
+                       "or the solver changes it: the status automaton keeps deciding on the initial value while the head-loss row follows the new one",
+                       expected="same verdict as a condition built in the new state", found=bad_[:3])
+        chk.floor("R-C02-9", 12)
 
     # ---------------------------------------------------------------- R-C02-10 every link's rows are built from that link's own data
-    B.check_loop_independence(repo, chk, "R-C02-10", [(CON, b + ".build") for b in (
-        "piecewise_hazen_williams_headloss_constraint", "approx_hazen_williams_headloss_constraint", "head_pump_headloss_constraint", "power_pump_headloss_constraint",
-        "prv_headloss_constraint", "psv_headloss_constraint", "fcv_headloss_constraint", "tcv_headloss_constraint")] + [(PAR, p + ".build") for p in (
-        "hw_resistance_param", "minor_loss_param", "tcv_resistance_param", "pump_power_param", "valve_setting_param")] + [(B.VAR, "flow_var")], "link")
-    chk.floor("R-C02-10", 14)
+    with chk.part("R-C02-10 every link's rows are built from that link's own data"):
+        B.check_loop_independence(repo, chk, "R-C02-10", [(CON, b + ".build") for b in (
+            "piecewise_hazen_williams_headloss_constraint", "approx_hazen_williams_headloss_constraint", "head_pump_headloss_constraint", "power_pump_headloss_constraint",
+            "prv_headloss_constraint", "psv_headloss_constraint", "fcv_headloss_constraint", "tcv_headloss_constraint")] + [(PAR, p + ".build") for p in (
+            "hw_resistance_param", "minor_loss_param", "tcv_resistance_param", "pump_power_param", "valve_setting_param")] + [(B.VAR, "flow_var")], "link")
+        chk.floor("R-C02-10", 14)
 
 
 _W = lambda name, old, new, rule, **kw: dict(name=name, file=CON, old=old, new=new, rule=rule, **kw)
